@@ -244,6 +244,22 @@ func (e *Engine) VerifyFunc(c *Contract) {
 	pkg := tgt.pkg
 	c = e.effective(c, tgt)
 	{
+		number := func(cs []*Clause) []*Clause {
+			out := make([]*Clause, len(cs))
+			for i, cl := range cs {
+				n := *cl
+				n.Ord = i + 1
+				out[i] = &n
+			}
+			return out
+		}
+		cp0 := *c
+		cp0.Requires, cp0.Ensures, cp0.Running = number(c.Requires), number(c.Ensures), number(c.Running)
+		cp0.Loops = map[int]*LoopSpec{}
+		for k, ls := range c.Loops {
+			cp0.Loops[k] = &LoopSpec{Invariants: number(ls.Invariants), ModExtra: ls.ModExtra}
+		}
+		c = &cp0
 		cp := *c
 		cp.Requires = e.activeClauses(c.Requires)
 		cp.Ensures = e.activeClauses(c.Ensures)
@@ -257,6 +273,7 @@ func (e *Engine) VerifyFunc(c *Contract) {
 	fc := &FnCtx{e: e, pkg: pkg, info: pkg.TypesInfo, decl: tgt.decl, body: tgt.body, c: c, name: name,
 		counters: map[string]int{}, modified: map[types.Object]bool{}}
 	fc.sig = tgt.sig
+	fc.firedWhere = map[string]bool{}
 	fc.gen = e.genInfo[c.Key()]
 	fc.index()
 	st := NewState()
@@ -401,6 +418,13 @@ func (e *Engine) VerifyFunc(c *Contract) {
 			panic(unsupported("break/continue escapes function body"))
 		}
 	}
+	// a ghost assert whose program point was never reached guards nothing: the anchor (call) disappeared
+	for _, a := range c.Asserts {
+		if e.applies(&Clause{Props: a.Props}) && !fc.firedWhere[a.Where] {
+			e.addObl(&Obligation{Name: fmt.Sprintf("%s#assert-anchor(%s)", name, a.Where), Kind: "assert", Func: name, Goal: False, Hyps: nil,
+				Verdict: "sat", Solver: "engine", Note: "ghost assert `" + a.Text + "` is attached to program point `" + a.Where + "`, which does not occur in the function any more"})
+		}
+	}
 	e.verified = append(e.verified, name)
 }
 
@@ -433,11 +457,11 @@ func (fc *FnCtx) finish(st *State, rets []Value, where string, pos token.Pos) {
 	fc.applyUses(st, where)
 	fc.applyUses(st, "exit")
 	fc.e.addObl(&Obligation{Name: fmt.Sprintf("%s#cover.exit@%s", fc.name, where), Kind: "cover-exit", Func: fc.name, Hyps: st.Hyps(), Cover: true, Pos: fc.e.posStr(pos)})
-	for k, en := range fc.c.Ensures {
+	for _, en := range fc.c.Ensures {
 		sc := fc.specCtx(st, scope)
 		sc.pol = 1
 		t := sc.evalBool(en.Expr)
-		fc.obligeNamed(st, fmt.Sprintf("%s#ensures.%d@%s", fc.name, k+1, where), "ensures", t, pos, en.Text)
+		fc.obligeNamed(st, fmt.Sprintf("%s#ensures.%d@%s", fc.name, en.Ord, where), "ensures", t, pos, en.Text)
 	}
 	fc.frameCheck(st, where, pos)
 }
